@@ -56,6 +56,7 @@ func runC10(p *Prog, r *Report) {
 func c10Anchored(p *Prog, r *Report) {
 	q := NewQ(p, r)
 	// ---- C10.3 core.socket.Close
+	coreCloseWaitsForNothing(p, r, "C10.17/close-waits-for-no-goroutine")
 	R := "C10.3/socket-close"
 	r.Describe(R, "core socket.Close marks the socket closed under the lock, closes every listener and dialer, the protocol and all pipes; NewDialer/NewListener register an endpoint only if the socket is not closed, tested in the same critical section")
 	sc := q.Fn(R, "internal/core", "socket", "Close")
@@ -234,7 +235,20 @@ func c10Anchored(p *Prog, r *Report) {
 				}
 				EachInstr(g, func(in ssa.Instruction) {
 					c := CallOf(in)
-					if c == nil || !CalleeIs(c, "time", "Timer", "Stop") {
+					if c == nil {
+						return
+					}
+					// `stopTimer(&x.field)`: a helper that stops the timer whose address it gets
+					if sc := c.StaticCallee(); sc != nil && !c.IsInvoke() && p.moduleFunc(sc) && sc.Blocks != nil {
+						for ai, a := range c.Args {
+							if sfa, ok := a.(*ssa.FieldAddr); ok && ai < len(sc.Params) && FieldVar(sfa) == fv {
+								if st, _, _, _ := timerParamEffects(p, sc, sc.Params[ai]); st {
+									stopped = p.FuncName(g)
+								}
+							}
+						}
+					}
+					if !CalleeIs(c, "time", "Timer", "Stop") {
 						return
 					}
 					if l, ok := c.Args[0].(*ssa.UnOp); ok {
@@ -497,4 +511,83 @@ func ownClosedObserved(p *Prog, r *Report, R string) {
 	}
 	r.Count("c10.own_closed_ops", n)
 	r.Floor(R, "c10.own_closed_ops", 30)
+}
+
+// coreCloseWaitsForNothing: the Close methods of the core's socket, dialer, listener and pipe
+// are called from application callbacks (a pipe-event hook that closes the listener after the
+// first peer, or the socket on a bad peer): the callback runs on the library goroutine that
+// accepted or lost the pipe.  A Close that waits for such a goroutine to finish — a receive
+// from a channel the goroutine closes on exit, a WaitGroup, a condition variable — waits for
+// itself.  So no Close of the core, and nothing it calls synchronously inside the core, blocks
+// on a channel, a WaitGroup or a Cond.
+func coreCloseWaitsForNothing(p *Prog, r *Report, R string) {
+	r.Describe(R, "Close of the core's socket, dialer, listener and pipe (and what they call synchronously inside the core) never waits on a channel, WaitGroup or condition variable: those Close methods are called from pipe-event callbacks, which run on the library's own accept/attach/detach goroutines, so waiting for such a goroutine is waiting for oneself")
+	n := 0
+	for _, rt := range []string{"socket", "dialer", "listener", "pipe"} {
+		fn := p.Func("internal/core", rt, "Close")
+		if fn == nil {
+			r.Bad(R, "anchor:internal/core.("+rt+").Close", "-", "ANCHOR-MISSING: internal/core."+rt+".Close not found")
+			continue
+		}
+		n++
+		bad := ""
+		seen := map[*ssa.Function]bool{}
+		var visit func(f *ssa.Function, d int)
+		visit = func(f *ssa.Function, d int) {
+			if seen[f] || d > 4 {
+				return
+			}
+			seen[f] = true
+			for _, ff := range WithClosures(f) {
+				if ff != f {
+					// closures started as goroutines do not hold Close up; closures run in
+					// place (Once.Do) do
+					isGo := false
+					for _, ref := range refsOfClosure(ff) {
+						if _, ok := ref.(*ssa.Go); ok {
+							isGo = true
+						}
+					}
+					if isGo {
+						continue
+					}
+				}
+				EachInstr(ff, func(in ssa.Instruction) {
+					if bi := directBlocking(in); bi != nil {
+						switch bi.Kind {
+						case "chan-recv", "wg-wait", "cond-wait", "select":
+							if bad == "" {
+								bad = bi.What + " at " + p.InstrPos(in)
+							}
+						}
+					}
+					for _, callee := range p.SyncCallees(in) {
+						if rel, ok := p.FuncRel(callee); ok && rel == "internal/core" {
+							visit(callee, d+1)
+						}
+					}
+				})
+			}
+		}
+		visit(fn, 0)
+		r.Check(bad == "", R, "internal/core.("+rt+").Close", p.Pos(fn.Pos()), "waits for no goroutine", "Close waits ("+bad+"): called from a pipe-event callback — which runs on the goroutine being waited for — it never returns, and the socket is never torn down")
+	}
+	r.Count("c10.core_close_methods", n)
+}
+
+// refsOfClosure: the instructions that use the MakeClosure of an anonymous function.
+func refsOfClosure(fn *ssa.Function) []ssa.Instruction {
+	var out []ssa.Instruction
+	par := fn.Parent()
+	if par == nil {
+		return nil
+	}
+	EachInstr(par, func(in ssa.Instruction) {
+		if mc, ok := in.(*ssa.MakeClosure); ok && mc.Fn == fn {
+			if mc.Referrers() != nil {
+				out = append(out, *mc.Referrers()...)
+			}
+		}
+	})
+	return out
 }
